@@ -215,7 +215,7 @@ func renderFields(r *rand.Rand, fs []gField) string {
 		noise()
 		sep := []string{" ", "  ", " \t", "\t ", " \t "}[r.Intn(5)]
 		lead := []string{"", " ", "\t", "    "}[r.Intn(4)]
-		tail := []string{"", " ", "  # the field", "\t"}[r.Intn(4)]
+		tail := []string{"", " ", "  # the field", "\t", " # 0 = ok, 1 = low", "#x=y"}[r.Intn(6)]
 		sb.WriteString(lead + f.Written + sep + f.Name + tail + "\n")
 	}
 	noise()
